@@ -28,6 +28,7 @@ for b in gen.BACKENDS:
 CONFIGS.append({'kind': 'file', 'serialized': True, 'protocol': 0})
 CONFIGS.append({'kind': 'file', 'serialized': True, 'protocol': 5})
 CONFIGS.append({'kind': 'dir', 'serialized': True, 'protocol': 3})
+CONFIGS.append({'kind': 'file', 'serialized': False, 'protocol': None, 'noext': True})
 
 
 def is_json(b):
@@ -152,6 +153,8 @@ def public_open(b, root, cached, suffix=''):
         return KA.null_archive('nul', cached=cached)
     if k == 'file':
         ext = '.py' if not b.get('serialized', True) else ('.json' if b.get('protocol') == 'json' else '.pkl')
+        if b.get('noext'):
+            ext = ''      # the name as a user would type it; klepto appends '.py' for source-text archives itself
         return KA.file_archive(os.path.join(root, 'arch%s%s' % (suffix, ext)), cached=cached,
                                serialized=b.get('serialized', True), protocol=b.get('protocol'))
     if k == 'dir':
@@ -337,6 +340,20 @@ class Run03(object):
                          [x for x in set(real) ^ set(M)] or ([k] if k is not None else ()))
                 # resynchronise the model so one defect is reported once
                 self.model = dict(real)
+            if not self.cached and gen.persistent(self.b) and i % 5 == 2:
+                self.note('c03_second_handle_checks')
+                try:
+                    h = open_archive(self.b, self.root, cached=False, public=False)
+                    seen = dict(h.items())
+                    conn = getattr(h, '_conn', None)
+                    if conn is not None:
+                        conn.close()
+                except Exception as e:
+                    seen = {'<second handle failed>': '%s: %s' % (type(e).__name__, str(e)[:100])}
+                if not same_dict(seen, self.model):
+                    self.bad('second-handle-sees-other-contents', 'after %s: a second handle on the same archive sees %s, '
+                             'this handle / a dict %s' % (o, sorted(map(repr, seen))[:6], sorted(map(repr, self.model))[:6]),
+                             [x for x in set(seen) ^ set(self.model)])
             if self.cached and i % 7 == 6:
                 a.sync(clear=True)
                 back = dict(a.archive.items())
@@ -656,9 +673,20 @@ class Run08(object):
         self.have = self.arch is not None   # the cache still references our archive somewhere
         self.n_open = 0
         self.step = -1
+        self.orig = self.arch
 
     def note(self, c, n=1):
         self.cnt[c] = self.cnt.get(c, 0) + n
+
+    def fresh_view(self):
+        """contents of our (persistent) archive as a second handle on the same location sees them"""
+        h = open_archive(self.b, self.root, cached=False, public=False)
+        try:
+            return dict(h.items())
+        finally:
+            conn = getattr(h, '_conn', None)
+            if conn is not None:
+                conn.close()
 
     def bad(self, kind, msg):
         self.viol.append({'property': 'C08', 'kind': kind, 'msg': msg[:600], 'mech': [], 'step': self.step,
@@ -817,6 +845,17 @@ class Run08(object):
         elif cur_real:
             self.bad('null-archive-not-empty', 'after %s: detached cache\'s archive holds %r' % (o, list(cur_real)[:3]))
             return
+        if self.arch is not None and self.arch is self.orig and gen.persistent(self.b) and self.step % 3 == 2:
+            # what the algebra says about the archive is what the *store* holds, not just this handle's view
+            self.note('c08_second_handle_checks')
+            try:
+                real = self.fresh_view()
+            except Exception as e:
+                real = {'<second handle failed>': '%s: %s' % (type(e).__name__, str(e)[:100])}
+            if not same_dict(real, self.A):
+                self.bad('stored-archive-differs', 'after %s: a second handle on the archive sees %s, algebra says %s'
+                         % (o, sorted(map(repr, real))[:6], sorted(map(repr, self.A))[:6]))
+                return
         if self.arch is not None and (self.parked or not self.have):
             # the parked / dropped archive object must be untouched
             real = dict(self.arch.items())
